@@ -1,5 +1,6 @@
 import SunriseVerif.Model.GovTally
 import SunriseVerif.Lemmas.Dec
+import Mathlib.Tactic.Ring
 /-!
 C16 — Governance tally ignores non-voting stake without distorting turnout.
 Theorems about `Model/GovTally.lean` (the FIXED custom tally of app/gov/gov.go, tied to the code by the `govtally`
@@ -320,5 +321,48 @@ example : tally "sc" [{ addr := "a0", bonded := 6, shares := Dec.ofInt 6 }, { ad
       [⟨"sc", "a0", Dec.ofInt 3⟩, ⟨"a0", "a0", Dec.ofInt 3⟩, ⟨"a1", "a1", Dec.ofInt 7⟩]
       [⟨"a0", [⟨1, Dec.one⟩]⟩, ⟨"a1", [⟨3, Dec.one⟩]⟩] 15 :=
   tally_perm _ _ _ _ _ _ (List.Perm.swap _ _ _) (by decide)
+
+/-! ## 5. exactness when shares = tokens (validators that were never slashed) -/
+
+theorem chopRoundNN_mul (z : Int) : Dec.chopRoundNN (z * PREC) = z := by
+  have h1 : z * PREC % PREC = 0 := Int.mul_emod_left z PREC
+  have h2 : z * PREC / PREC = z := Int.mul_ediv_cancel z (by decide : PREC ≠ 0)
+  simp [Dec.chopRoundNN, h1, h2]
+
+theorem chopRound_mul (y : Int) : Dec.chopRound (y * PREC) = y := by
+  unfold Dec.chopRound
+  by_cases h : y * PREC < 0
+  · rw [if_pos h]
+    have e : -(y * PREC) = (-y) * PREC := by rw [Int.neg_mul]
+    rw [e, chopRoundNN_mul]; omega
+  · rw [if_neg h, chopRoundNN_mul]
+
+/-- `x · b / b = x` exactly in LegacyDec arithmetic (no rounding loss) for a positive integer `b` -/
+theorem quo_mulInt_ofInt (x : Dec) (b : Int) (hb : 0 < b) : (x.mulInt b).quo (Dec.ofInt b) = x := by
+  apply dec_ext
+  simp only [Dec.quo, Dec.mulInt, Dec.ofInt, Dec.tquo]
+  have hP : (0 : Int) < PREC := by decide
+  have hne : b * PREC ≠ 0 := Int.ne_of_gt (Int.mul_pos hb hP)
+  have e : x.raw * b * PREC * PREC = (x.raw * PREC) * (b * PREC) := by ring
+  rw [e, Int.mul_tdiv_cancel _ hne, chopRound_mul]
+
+/-- for a validator whose shares equal its tokens, the voting power of a delegation is exactly its shares -/
+theorem power_eq_shares_of_unslashed (x : Dec) (v : Val) (hb : 0 < v.bonded) (hs : v.shares = Dec.ofInt v.bonded) :
+    power x v = x := by
+  unfold power; rw [hs]; exact quo_mulInt_ofInt x v.bonded hb
+
+/-- with no non-voting stake the turnout is not rescaled at all: the custom tally returns the voted power itself -/
+theorem rescale_no_nonvoting (t : Dec) (bonded : Int) (hb : 0 < bonded) : rescale t bonded Dec.zero = t := by
+  have hP : (0 : Int) < PREC := by decide
+  have hpos : ((Dec.ofInt bonded).sub Dec.zero).raw > 0 := by
+    simp only [Dec.sub, Dec.ofInt, Dec.zero]; have := Int.mul_pos hb hP; omega
+  have e : (Dec.ofInt bonded).sub Dec.zero = Dec.ofInt bonded := by
+    apply dec_ext; simp only [Dec.sub, Dec.zero]; omega
+  unfold rescale Dec.isPositive
+  simp only [hpos, decide_true, if_true]
+  rw [e]; exact quo_mulInt_ofInt t bonded hb
+
+example : power (Dec.ofInt 3) { addr := "a0", bonded := 6, shares := Dec.ofInt 6 } = Dec.ofInt 3 :=
+  power_eq_shares_of_unslashed _ _ (by decide) rfl
 
 end Sunrise.C16
